@@ -19,7 +19,7 @@ RULE = (
     "many ties; float64 with one NaN) x every operation of the statement (sum prod min max any all mean var std moment, "
     "nan-variants, argmin/argmax/nanargmin/nanargmax, cumsum/cumprod/nancumsum/nancumprod sequential and blelloch, "
     "topk/argtopk +-k, median/nanmedian/quantile) x every axis selection the operation accepts (None, each int, every "
-    "tuple) x keepdims, each evaluated for split_every in {None, 2, 3, {axis: 2}}; random: arrays of 1-3 dims (sides 0..7; "
+    "tuple) x keepdims, each evaluated for split_every in {None, 2, 3, {axis: 2}}; random: arrays of 1-3 dims (sides 1..7; "
     "dtypes bool/int32/int64/uint8/float32/float64; NaN/inf/-0.0 injected; random chunkings, ~10% with explicit zero-size "
     "chunks as a separate stratum), random op/axis/keepdims/ddof/order/k/q/method and two different split_every values "
     "whose results must also agree with each other. Oracle: the NumPy function on the concatenated data: exact for "
@@ -39,6 +39,12 @@ ASSUMPTIONS = [
     "median/nanmedian need an axis, quantile axis=None only for single-block arrays (dask refuses otherwise: counted as "
     "out-of-domain)",
     "length-1 axes split into several blocks by an explicit zero-size chunk are not generated (C19's listed finding)",
+    "zero-length axes (empty arrays) are not explored: a probe over shapes (0,), (0,2), (2,0), (0,0), (2,0,2) showed at "
+    "least six unrelated deviations confined to them (min/max over a non-empty axis of an empty array raise or return the "
+    "wrong shape, min/max over the empty axis return [] where NumPy raises, nanmin/nanmax refuse every empty array, "
+    "nanmedian TypeError, median ZeroDivisionError in the auto-rechunk, cumsum(axis=None) TypeError in reshape, topk with "
+    "k > 0 reports a lazy length k); explicit zero-size chunks of non-empty arrays remain a ~10% stratum of the random "
+    "sub-check with their own sig flags (zero_chunk, zero_chunk_on_reduced_axis)",
 ]
 TECHNIQUE = "differential testing against NumPy over exhaustive chunkings x ops x axes x keepdims x split_every and Hypothesis-generated arrays"
 
@@ -207,18 +213,34 @@ def arg_axis_none_multichunk(case):
     return case["op"] in ARG and case["axis"] is None and len(ch) >= 2 and any(len(c) > 1 for c in ch[1:])
 
 
-def empty_unreduced_axis(case):
-    """The array is empty although every reduced axis is non-empty (the result is an empty array, no identity needed)."""
-    shape = case["array"]["shape"]
-    red = reduced_axes(case)
-    return 0 in shape and all(shape[a] > 0 for a in red)
-
-
 def k_ge_axis_len(case):
     if case["op"] not in TOPK:
         return False
     shape = case["array"]["shape"]
     return abs(case["k"]) >= shape[case["axis"] % len(shape)]
+
+
+def topk_partials_fit_k(case):
+    """The final aggregation step of the tree receives >= 2 partial results that together hold no more than |k| elements,
+    so that no partition step is needed there: always when |k| >= the axis length (>= 2 blocks); with explicit zero-size
+    chunks also for smaller |k|, depending on how split_every groups the blocks (the tree of dask.array's _tree_reduce is
+    simulated: each block / group contributes min(|k|, its length) elements).  True if it holds for one of the case's
+    split_every values."""
+    if case["op"] not in TOPK:
+        return False
+    ch = case["array"]["chunks"]
+    c = ch[case["axis"] % len(ch)]
+    k = abs(case["k"])
+    if len(c) < 2:
+        return False
+    for se in case.get("splits", [None]):
+        se = {None: 4, "dict": 2}.get(se, se)
+        lens = [min(k, n) for n in c]
+        while len(lens) > se:
+            lens = [min(k, sum(lens[i : i + se])) for i in range(0, len(lens), se)]
+        if len(lens) >= 2 and sum(lens) <= k:
+            return True
+    return False
 
 
 def tied_extremum(case, x):
@@ -263,13 +285,14 @@ def sig_of(case, x=None):
         zero_chunk_on_reduced_axis=zero_chunk_on_reduced_axis(case),
         axis_none=case["axis"] is None,
         arg_axis_none_multichunk=arg_axis_none_multichunk(case),
-        empty_unreduced_axis=empty_unreduced_axis(case),
-        # strata: an explicit zero-size chunk on any axis (an empty block exists) / a zero-length axis (the array is empty)
+        # stratum: an explicit zero-size chunk on any axis (an empty block exists)
         zero_chunk=A.has_zero_chunk(case["array"]["chunks"]),
-        zero_size_array=0 in case["array"]["shape"],
+        # True when the failure is an exception escaping dask (set in check); the exception type is in the symptom
+        raised=False,
     )
     if case["op"] in TOPK:
         sig["k_ge_axis_len"] = k_ge_axis_len(case)
+        sig["topk_partials_fit_k"] = topk_partials_fit_k(case)
     if case["op"] in SCAN:
         sig["method"] = case.get("method", "sequential")
     if x is not None and case["op"] in ARG:
@@ -314,7 +337,7 @@ def check(case):
                 except Exception:  # noqa: BLE001
                     continue
                 raise Violation(f"{what}: NumPy raises {type(want).__name__}: {want}; dask returned {short(got)}", "accepts-what-numpy-rejects", **sig)
-            with impl(what, **sig):
+            with impl(what, **dict(sig, raised=True)):
                 try:
                     r = da_apply(case, d, se)
                 except NotImplementedError as e:
@@ -388,8 +411,6 @@ def classes(case):
         yield "zero-chunk-on-reduced-axis"
     elif A.has_zero_chunk(arr["chunks"]):
         yield "zero-chunk-elsewhere"
-    if 0 in arr["shape"]:
-        yield "zero-length-axis"
     if arr.get("special"):
         for s in set(arr["special"]):
             yield "special-" + s
@@ -473,7 +494,8 @@ def random_case(draw):
             zero_chunk_pct=18,  # (zero-extended completions never take the branch: ~10% of the evaluated cases)
             min_dims=1,
             max_dims=3,
-            min_side=draw(st.sampled_from([1, 2, 2, 3] if op in TOPK else [0, 1, 2, 2, 3])),
+            # zero-length axes are not explored (see ASSUMPTIONS)
+            min_side=draw(st.sampled_from([1, 2, 2, 3])),
             max_side=max_side,
             dtypes=dtypes,
             fills=fills,
@@ -516,6 +538,7 @@ SUBCHECKS = [
         nontrivial=nontrivial,
         classes=classes,
         exhaustive=True,
+        budget_s={"quick": 150, "thorough": 900},  # ~8k cases x 4 split_every values: ~20 s on 16 idle cores
         doc="all chunkings of small shapes x two data sets x every op x every accepted axis selection x keepdims, each for split_every in {None,2,3,{axis:2}}",
     ),
     Sub(
